@@ -141,10 +141,11 @@ theorem inv_key_congr (key' : Nat → Int) (h : Heap) (hi : Inv key h)
     intro i c q h0 hc hq
     rw [hsame _ _ hc, hsame _ _ hq]; exact hi.ordered i c q h0 hc hq
 
-theorem increase_inv_key (key0 : Nat → Int) (h h' : Heap) (rc e : Nat) (hi : Inv key0 h)
-    (he : h.a[rc]? = some e) (hsame : ∀ x, x ≠ e → key x = key0 x) (hge : key0 e ≤ key e)
-    (hr : increase key h rc = some h') : Inv key h' := by
-  apply increase_inv key h h' rc hi.distinct hi.handles _ _ hr
+/-- after the key of the element in slot `rc` has grown, the heap is ordered except below `rc` -/
+theorem increase_pre_of_key (key0 : Nat → Int) (h : Heap) (rc e : Nat) (hi : Inv key0 h)
+    (he : h.a[rc]? = some e) (hsame : ∀ x, x ≠ e → key x = key0 x) (hge : key0 e ≤ key e) :
+    OrderedBelowExcept key h h.a.size 0 rc ∧ ParentOK key h h.a.size 0 rc := by
+  constructor
   · intro i c q h0 _ _ hpar hc hq
     have hqe : q ≠ e := fun heq => hpar (hi.distinct _ _ e (heq ▸ hq) he)
     have := hi.ordered i c q h0 hc hq
@@ -162,10 +163,11 @@ theorem increase_inv_key (key0 : Nat → Int) (h h' : Heap) (rc e : Nat) (hi : I
     have e2 := hi.ordered rc e q h0 he hq
     omega
 
-theorem decrease_inv_key (key0 : Nat → Int) (h h' : Heap) (rc e : Nat) (hi : Inv key0 h)
-    (he : h.a[rc]? = some e) (hsame : ∀ x, x ≠ e → key x = key0 x) (hle : key e ≤ key0 e)
-    (hr : decrease key h rc = some h') : Inv key h' := by
-  apply decrease_inv key h h' rc hi.distinct hi.handles _ _ hr
+/-- after the key of the element in slot `rc` has shrunk, the heap is ordered except at `rc` upward -/
+theorem decrease_pre_of_key (key0 : Nat → Int) (h : Heap) (rc e : Nat) (hi : Inv key0 h)
+    (he : h.a[rc]? = some e) (hsame : ∀ x, x ≠ e → key x = key0 x) (hle : key e ≤ key0 e) :
+    OrderedExcept key h h.a.size rc ∧ GrandOK key h h.a.size rc := by
+  constructor
   · intro i c q h0 _ hne hc hq
     have hce : c ≠ e := fun heq => hne (hi.distinct _ _ e (heq ▸ hc) he)
     have := hi.ordered i c q h0 hc hq
@@ -183,16 +185,30 @@ theorem decrease_inv_key (key0 : Nat → Int) (h h' : Heap) (rc e : Nat) (hi : I
     have e2 := hi.ordered rc e q h0 he hq
     omega
 
+theorem increase_inv_key (key0 : Nat → Int) (h h' : Heap) (rc e : Nat) (hi : Inv key0 h)
+    (he : h.a[rc]? = some e) (hsame : ∀ x, x ≠ e → key x = key0 x) (hge : key0 e ≤ key e)
+    (hr : increase key h rc = some h') : Inv key h' :=
+  have hpre := increase_pre_of_key key key0 h rc e hi he hsame hge
+  increase_inv key h h' rc hi.distinct hi.handles hpre.1 hpre.2 hr
+
+theorem decrease_inv_key (key0 : Nat → Int) (h h' : Heap) (rc e : Nat) (hi : Inv key0 h)
+    (he : h.a[rc]? = some e) (hsame : ∀ x, x ≠ e → key x = key0 x) (hle : key e ≤ key0 e)
+    (hr : decrease key h rc = some h') : Inv key h' :=
+  have hpre := decrease_pre_of_key key key0 h rc e hi he hsame hle
+  decrease_inv key h h' rc hi.distinct hi.handles hpre.1 hpre.2 hr
+
 theorem increasemin_inv_key (key0 : Nat → Int) (h : Heap) (e : Nat) (hi : Inv key0 h)
     (he : h.a[0]? = some e) (hsame : ∀ x, x ≠ e → key x = key0 x) (hge : key0 e ≤ key e) :
-    Inv key (increasemin key h) := by
-  apply increasemin_inv key h hi.distinct hi.handles
-  intro i c q h0 _ _ hpar hc hq
-  have hqe : q ≠ e := fun heq => hpar (hi.distinct _ _ e (heq ▸ hq) he)
-  have := hi.ordered i c q h0 hc hq
-  rw [hsame q hqe]
-  by_cases hce : c = e
-  · subst hce; omega
-  · rw [hsame c hce]; exact this
+    Inv key (increasemin key h) :=
+  increasemin_inv key h hi.distinct hi.handles (increase_pre_of_key key key0 h 0 e hi he hsame hge).1
+
+/-- the position most recently reported for a live element identifies exactly that element -/
+theorem handle_iff (h : Heap) (hi : Inv key h) (e rc : Nat) (he : e ∈ h.a.toList) :
+    posOf h e = some rc ↔ h.a[rc]? = some e := by
+  obtain ⟨i, hie⟩ := (Array.mem_iff_getElem?.mp (Array.mem_toList_iff.mp he))
+  have hp := hi.handles i e hie
+  constructor
+  · intro h1; rw [hp] at h1; cases h1; exact hie
+  · intro h1; exact hi.handles rc e h1
 
 end Percival.Proofs.Heap
